@@ -1107,7 +1107,7 @@ Proof.
     destruct (beq (upper (trim nm)) (bs "WATCH")).
     { split; [|reflexivity]. destruct (len parts <? 2); [apply Hq; exact Hsame|].
       destruct (c_intx cn); [apply Hq; exact Hsame|].
-      destruct (watch_loop_partial (c_db cn) (get_trk s (c_db cn)) rest (c_watched cn)) as [[t' w'] okb].
+      destruct (watch_loop_partial now (c_db cn) (get_db s (c_db cn)) (get_trk s (c_db cn)) rest (c_watched cn)) as [[[d' t'] w'] okb].
       cbn [snd]. eapply Hconn; try reflexivity. exact Hdb. }
     destruct (beq (upper (trim nm)) (bs "UNWATCH")).
     { split; [|reflexivity]. cbn [snd]. destruct (unwatch_all_rest (c_watched cn) s) as (U1 & U2 & U3 & U4).
